@@ -260,11 +260,13 @@ def obligations(tier, seed):
             half = ([0] + [x for x in range(1, 21) if (x + pi + seed) % 2 == 0]) if quick else None
             obs.append(_history_obl(p, 2, t, nsel=2, first=first, probe_first=pf, last_domain=half))
             if not quick:
-                obs.append(_history_obl(p, 2, t, nsel=2, first=first, probe_first=not pf))
-                if (first + pi + seed) % 4 == 0:
-                    # three steps: first pinned, second free over all 20 scenarios, third over a rotating quarter of them
-                    k = (first + 2 * pi + seed) % 5
-                    obs.append(_history_obl(p, 2, t, nsel=3, first=first, probe_first=pf, last_domain=[0] + [x for x in range(1, 21) if x % 5 == k]))
+                if (first + pi + seed) % 3 == 0:
+                    obs.append(_history_obl(p, 2, t, nsel=2, first=first, probe_first=not pf))
+                if (first + pi + seed) % 8 == 0:
+                    # three steps: first pinned, second free over all 20 scenarios, third over a rotating seventh of them
+                    # (sized from a measured run: a 3-step shard with 5 values in the last step took ~950 s, a 2-step shard ~150 s, on a loaded machine)
+                    k = (first + 2 * pi + seed) % 7
+                    obs.append(_history_obl(p, 2, t, nsel=3, first=first, probe_first=pf, last_domain=[0] + [x for x in range(1, 21) if x % 7 == k]))
     kinds = ['agg', 'unnest', 'like', 'dcount', 'sorted', 'update', 'divide', 'top', 'minmax']
     pairs = []
     for i, a in enumerate(kinds):
